@@ -1,6 +1,7 @@
 package main
 
 import (
+	"fmt"
 	"bufio"
 	"flag"
 	"os"
@@ -315,11 +316,21 @@ func c16Line(work, line string, lineNo, slots int) {
 			last = c16Arrays(g, slots)
 		}
 	}
-	res := runProject(work, splitArgs(line))
+	res := c16RunRecover(work, line)
 	hermes.VerifProbe = nil
 	if last != nil {
 		last["k"], last["line"] = "final", lineNo
 		emit(last)
 	}
 	emit(jobj{"k": "run", "line": lineNo, "success": res.Success, "err": res.Err, "days": days})
+}
+
+// c16RunRecover runs one batch line; a panic inside the simulator ends that run only (reported as its error)
+func c16RunRecover(work, line string) (res runResult) {
+	defer func() {
+		if r := recover(); r != nil {
+			res = runResult{Success: false, Err: fmt.Sprintf("panic: %v", r)}
+		}
+	}()
+	return runProject(work, splitArgs(line))
 }
